@@ -1,0 +1,123 @@
+// Copyright 2023 The Go Authors. All rights reserved.
+// Use of this source code is governed by a BSD-style
+// license that can be found in the LICENSE file.
+
+//go:build verif && (!goexperiment.jsonv2 || !go1.25)
+
+package jsonwire
+
+// Contracts for encode.go.
+
+// needEscFrom: some unit of src[k:] needs escaping under some combination of
+// the escape options, or is ill-formed UTF-8 (RFC 8259 section 7 plus the
+// EscapeForHTML / EscapeForJS options).
+//
+//@ spec needEscFrom
+func needEscFrom(src []byte, k int) bool {
+	if k >= len(src) || k < 0 {
+		return false
+	}
+	c := src[k]
+	if c < 0x80 {
+		return c < 0x20 || c == '"' || c == '\\' || c == '<' || c == '>' || c == '&' || needEscFrom(src, k+1)
+	}
+	l := utf8Len(src, k)
+	if l <= 0 {
+		return true
+	}
+	r := utf8Rune(src, k)
+	return r == 0xfffd || r == 0x2028 || r == 0x2029 || needEscFrom(src, k+l)
+}
+
+//@ func NeedEscape
+//@ split
+//@ property C02 C11 C20
+//@ ensures result == needEscFrom(src, 0)
+//@ loop 0 invariant 0 <= i && i <= len(src)
+//@ loop 0 invariant needEscFrom(src, i) == needEscFrom(src, 0)
+//@ at call utf8.DecodeRune#0 assert sub: utf8Len(src[i:], 0) == utf8Len(src, i) && utf8Rune(src[i:], 0) == utf8Rune(src, i)
+//@ at call utf8.DecodeRune#0 assert valid: utf8Len(src, i) > 0 ==> r == utf8Rune(src, i) && rn == utf8Len(src, i)
+//@ at call utf8.DecodeRune#0 assert invalid: utf8Len(src, i) <= 0 ==> r == utf8.RuneError && rn == 1
+//@ at call utf8.DecodeRune#0 assert esc: (r == utf8.RuneError || r == 0x2028 || r == 0x2029) ==> needEscFrom(src, i)
+//@ at call utf8.DecodeRune#0 assert step: !(r == utf8.RuneError || r == 0x2028 || r == 0x2029) ==> needEscFrom(src, i) == needEscFrom(src, i+rn)
+
+//@ spec hexDigitLower
+func hexDigitLower(v uint16) byte {
+	if v < 10 {
+		return '0' + byte(v)
+	}
+	return 'a' + byte(v-10)
+}
+
+//@ func appendEscapedUTF16
+//@ property C11 C20
+//@ modifies dst[len(dst):cap(dst)]
+//@ ensures alias: sameOrFresh(result, dst)
+//@ ensures length: len(result) == len(dst)+6
+//@ ensures prefix: vForall(0, len(dst), func(i int) bool { return result[i] == dst[i] })
+//@ ensures bytes: result[len(dst)] == '\\' && result[len(dst)+1] == 'u' && result[len(dst)+2] == hexDigitLower(x/4096) && result[len(dst)+3] == hexDigitLower(x/256%16) && result[len(dst)+4] == hexDigitLower(x/16%16) && result[len(dst)+5] == hexDigitLower(x%16)
+
+// escASCIILen/escASCIIByte: the escaped spelling of an ASCII character that
+// must be escaped: the two-character forms of RFC 8259 where they exist,
+// otherwise lower-case \u00xx.
+//
+//@ spec escASCIILen
+func escASCIILen(c byte) int {
+	if c == '"' || c == '\\' || c == '\b' || c == '\f' || c == '\n' || c == '\r' || c == '\t' {
+		return 2
+	}
+	return 6
+}
+
+//@ spec escASCIIByte
+func escASCIIByte(c byte, t int) byte {
+	if escASCIILen(c) == 2 {
+		if t == 0 {
+			return '\\'
+		}
+		switch c {
+		case '\b':
+			return 'b'
+		case '\f':
+			return 'f'
+		case '\n':
+			return 'n'
+		case '\r':
+			return 'r'
+		case '\t':
+			return 't'
+		}
+		return c
+	}
+	switch t {
+	case 0:
+		return '\\'
+	case 1:
+		return 'u'
+	case 2, 3:
+		return '0'
+	case 4:
+		return hexDigitLower(uint16(c) / 16)
+	}
+	return hexDigitLower(uint16(c) % 16)
+}
+
+//@ func appendEscapedASCII
+//@ property C11 C20
+//@ requires c < 0x80
+//@ modifies dst[len(dst):cap(dst)]
+//@ ensures alias: sameOrFresh(result, dst)
+//@ ensures length: len(result) == len(dst)+escASCIILen(c)
+//@ ensures prefix: vForall(0, len(dst), func(i int) bool { return result[i] == dst[i] })
+//@ ensures bytes: vForall(0, escASCIILen(c), func(t int) bool { return result[len(dst)+t] == escASCIIByte(c, t) })
+
+// appendEscapedUnicode spells a rune as \uXXXX (a surrogate pair above the BMP).
+//
+//@ func appendEscapedUnicode
+//@ property C11 C20
+//@ requires 0 <= r && r <= 0x10ffff
+//@ modifies dst[len(dst):cap(dst)]
+//@ ensures alias: sameOrFresh(result, dst)
+//@ ensures length: len(result) == len(dst)+ite(r >= 0x10000, 12, 6)
+//@ ensures prefix: vForall(0, len(dst), func(i int) bool { return result[i] == dst[i] })
+//@ ensures bmp: r < 0x10000 ==> result[len(dst)] == '\\' && result[len(dst)+1] == 'u' && result[len(dst)+2] == hexDigitLower(uint16(r)/4096) && result[len(dst)+3] == hexDigitLower(uint16(r)/256%16) && result[len(dst)+4] == hexDigitLower(uint16(r)/16%16) && result[len(dst)+5] == hexDigitLower(uint16(r)%16)
